@@ -22,7 +22,7 @@ type c04Mon struct {
 // mkErr builds an error in a symbolic form and records it as the ending cause.
 func (m *c04Mon) end() error {
 	m.dead = true
-	m.form = vChoice("errForm", 3)
+	m.form = vChoice("errForm", 4)
 	switch m.form {
 	case 0:
 		m.cause = vNewErr()
@@ -30,6 +30,10 @@ func (m *c04Mon) end() error {
 	case 1:
 		m.cause = vNewErr()
 		m.exact = fmt.Errorf("callback context: %w", m.cause)
+	case 3:
+		// the user's own error wraps a context error although the run's context is alive
+		m.cause = context.DeadlineExceeded
+		m.exact = fmt.Errorf("upstream call timed out: %w", context.DeadlineExceeded)
 	default:
 		m.code = vNondet[int]("errCode")
 		e := vCustomErr{code: m.code}
@@ -60,7 +64,7 @@ func (m *c04Mon) finish(err error) {
 	case 0:
 		vCover("form-sentinel")
 		vAssert(errors.Is(err, m.cause), "is-cause")
-	case 1:
+	case 1, 3:
 		vCover("form-wrapped")
 		vAssert(errors.Is(err, m.cause), "is-cause-through-user-wrapping")
 	default:
